@@ -2479,10 +2479,21 @@ def translate():
         tr.opt_params = {'classification'}
         emit('get_values_and_class', '{α : Type} (self_shape : List Nat) (d : KeyDict α) : Except PyErr (Option (Cls × List α))', g.body, tr,
              '`DcmMetaExtension.get_values_and_class` (dcmmeta.py) for one key')
+        def classification_local(fn):
+            """the local bound to `self.get_classification(key)` is called `classification`, whatever the source calls it"""
+            fn = copy.deepcopy(fn)
+            names = [st.targets[0].id for st in fn.body if isinstance(st, ast.Assign) and len(st.targets) == 1
+                     and isinstance(st.targets[0], ast.Name) and ast.unparse(st.value) == 'self.get_classification(key)']
+            if len(names) == 1 and names[0] != 'classification':
+                for n in ast.walk(fn):
+                    if isinstance(n, ast.Name) and n.id == names[0]:
+                        n.id = 'classification'
+            return fn
         gv = find_func(dm, 'DcmMetaExtension', 'get_values')
         if gv is None:
             missing.append('get_values: not found')
         else:
+            gv = classification_local(gv)
             tr = Tr({'self.get_class_dict(classification)[key]': '(← KeyDict.get d classification)'},
                     {'self.get_classification(key)': 'get_classification self_shape d'})
             tr.opt_params = {'classification'}
